@@ -12,6 +12,7 @@ LEVEL = "exploration"
 TECHNIQUE = ('deterministic simulation (fault-free pipeline): seeded workload x knob swarm x read/step schedules, real writer -> simulated channel -> real reader, oracle = input sequence')
 LEVEL_NOTE = ("sampling of inputs and configurations on the simulator's fault-free pipeline; no schedule or fault is in the property itself, the simulator contributes the seeded swarm (table sizes as cache sizes) and schedule variation; a clean batch is evidence, not proof")
 OPTIMIZED_EVERY = 25      # every 25th run is executed in a child interpreter started with python -O
+PBPY_EVERY = 50           # every 50th run (offset 6) is executed with protobuf's pure-Python backend
 COMPILED_EVERY = 25       # every 25th run (offset 12) is executed in a child that imports a mypyc build of the tree
 RUNS = {"quick": 60000, "thorough": 1500000}
 RULE = ("seeded runs of the fault-free pipeline: statement sequence x knob swarm x read/step schedule; "
